@@ -81,6 +81,16 @@ CLAIMED = {
    text="Generated shapes of every kind with sequences of 1-6 move/scale/rotate calls (both call forms, anisotropic factors, radians and degrees) and the inverse sequence; after every step: same object returned, control points equal to the model's (exact with rational types for rational move/scale), then area, moments, signed boundary length, membership of transformed points, restoration by the inverse and == with a fresh original.",
    note="Trusted: the affine maps applied to the model (plain arithmetic) and the C04 reference integrals.",
    ref="4/C09"),
+ "C19": dict(
+   technique="property-based testing (Hypothesis): generated valid member lists (validated exactly by the reference) through the direct constructors vs the model region, all permutations, and the operator-built counterpart",
+   text="ConnectedShape / DisjointShape built directly from generated valid lists (holes, unbounded, islands, curved, equal-area members, Empty entries) are compared with the model (membership on witness points, area, moments, complement), across permutations of the list, and with the shape built by operators (library == both ways); collapse rules of DisjointShape are checked including independence of the single-member copy.",
+   note="Trusted: reference membership/moments and lib.spec_valid (exact for polygons).",
+   ref="4/C19"),
+ "C20": dict(
+   technique="property-based testing (Hypothesis): generated shapes plotted on an Agg figure; the produced matplotlib paths are parsed and compared piece by piece with the boundary segments",
+   text="For generated shapes of every kind with degree 1..3 segments the patches added to the axes are parsed (LINETO/CURVE3/CURVE4) and each piece is compared with the corresponding Bezier segment at 5 parameters; patch counts per component/boundary, closure, fill vs hole-in-background colouring, Empty/Whole behaviour and immutability of the shape are checked.",
+   note="Trusted: matplotlib's documented path codes; the vertex stored with CLOSEPOLY is ignored by matplotlib and not inspected.",
+   ref="4/C20"),
 }
 NOT_YET = "check not built yet in this round (planned, see DESIGN.md section 4); nothing is claimed for it"
 
